@@ -510,6 +510,10 @@ func c08run(env *core.Env, idx int) core.CaseResult {
 			if k, d := fsx.Diff(msnap, start); k != "" {
 				res.Violate(sig("notimplemented-but-changed:"+k), fmt.Sprintf("%s(%q) on %s with %s hidden failed with ErrNotImplemented but changed the tree: %s", cs.Helper, target, cs.Base, hidden, d), wit)
 			}
+		} else if k0, _ := fsx.Diff(msnap, start); hidden == "no-way-to-remove" && mr.OK() && k0 == "" {
+			// one situation (F25b), whatever the target and whatever the full run answers for it: nothing can be removed,
+			// nothing was, and the helper says it is done
+			res.Violate(sig("success-with-nothing-removed"), fmt.Sprintf("%s(%q) on %s, which offers no way to remove anything, returned nil and removed nothing (primitives %v); with everything exposed it returns %s and the tree differs: %s", cs.Helper, target, cs.Base, mcalls, fr, dd), wit)
 		} else if mr.Err != fr.Err {
 			res.Violate(sig("result:got="+mr.Err+",want="+fr.Err), fmt.Sprintf("%s(%q) on %s with %s hidden returned %s (primitives %v); with everything exposed it returns %s", cs.Helper, target, cs.Base, hidden, mr, mcalls, fr), wit)
 		} else if mr.Data != fr.Data {
